@@ -684,6 +684,12 @@ def corpus_cases():
 
 
 def run_text_stage(run, n=None):
+    """violations registered by this stage carry "stage": "T04" in their replays (common.Run.in_stage)"""
+    with run.in_stage("T04"):
+        return _run_text_stage(run, n)
+
+
+def _run_text_stage(run, n=None):
     """the harness must be built (harness_build()). Returns the counts (also stored in run.notes["text_metadata"])."""
     if n is None:
         n = 90 if run.tier == "quick" else 1200
